@@ -7,9 +7,9 @@ Local Open Scope N_scope.
 
 (* ---------- the encoded stream reader delivers the text, chunk by chunk ---------- *)
 
-Definition stream_rest (e : esr) : list N := e_pend e ++ e_rest e.
+Definition esr_rest (e : esr) : list N := e_pend e ++ e_rest e.
 (* eofbit is only ever set by a read that exhausted the source *)
-Definition esr_inv (e : esr) : Prop := e_eof e = true -> e_rest e = [].
+Definition esr_ok (e : esr) : Prop := e_eof e = true -> e_rest e = [].
 
 Lemma is_nil_true {A} (l : list A) : is_nil l = true <-> l = [].
 Proof. destruct l; cbn; split; congruence. Qed.
@@ -17,16 +17,16 @@ Proof. destruct l; cbn; split; congruence. Qed.
 Lemma firstn_nil_inv {A} n (l : list A) : (0 < n)%nat -> firstn n l = [] -> l = [].
 Proof. destruct n; [lia|]. destruct l; [reflexivity|discriminate]. Qed.
 
-Lemma esr_read_chunk_spec K e : (0 < K)%nat -> esr_inv e ->
+Lemma esr_read_chunk_spec K e : (0 < K)%nat -> esr_ok e ->
   match esr_read_chunk K e with
-  | (Some chunk, e') => chunk <> [] /\ chunk ++ stream_rest e' = stream_rest e /\ e_pend e' = [] /\ esr_inv e'
-  | (None, e') => stream_rest e = [] /\ stream_rest e' = [] /\ esr_is_end e' = true /\ esr_inv e'
+  | (Some chunk, e') => chunk <> [] /\ chunk ++ esr_rest e' = esr_rest e /\ True /\ esr_ok e'
+  | (None, e') => esr_rest e = [] /\ esr_rest e' = [] /\ esr_is_end e' = true /\ esr_ok e'
   end.
 Proof.
   intros HK Inv. unfold esr_read_chunk.
   destruct (esr_is_end e) eqn:Eend.
   - unfold esr_is_end in Eend. apply andb_true_iff in Eend. destruct Eend as [E1 E2].
-    apply is_nil_true in E1. unfold stream_rest. rewrite E1, (Inv E2). cbn.
+    apply is_nil_true in E1. unfold esr_rest. rewrite E1, (Inv E2). cbn.
     repeat split; try reflexivity. + unfold esr_is_end. rewrite E1, E2. reflexivity. + exact Inv.
   - unfold esr_fill.
     set (want := (K - length (e_pend e))%nat). set (got := firstn want (e_rest e)).
@@ -36,136 +36,18 @@ Proof.
       apply is_nil_true in B1. apply is_nil_true in B2. apply app_eq_nil in B2. destruct B2 as [P _].
       assert (Hw : want = K) by (subst want; rewrite P; cbn; lia).
       assert (Hr : e_rest e = []) by (apply (firstn_nil_inv want); [lia | exact B1]).
-      unfold stream_rest, esr_is_end, esr_inv. cbn [e_pend e_rest e_eof]. rewrite P, Hr, B1. cbn.
+      unfold esr_rest, esr_is_end, esr_ok. cbn [e_pend e_rest e_eof]. rewrite P, Hr, B1. cbn.
       rewrite skipn_nil. repeat split; try reflexivity.
       destruct want; [lia|]. apply orb_true_r.
     + cbn [e_pend e_rest e_eof]. split.
       * intros Hnil. apply app_eq_nil in Hnil. destruct Hnil as [P G].
         rewrite P, G in Eb. cbn in Eb. discriminate.
-      * unfold stream_rest, esr_inv. cbn [e_pend e_rest e_eof app]. split.
+      * unfold esr_rest, esr_ok. cbn [e_pend e_rest e_eof app]. split.
         { rewrite <- app_assoc. subst got. rewrite firstn_skipn. reflexivity. }
-        split; [reflexivity|].
+        split; [exact I|].
         intros He. apply orb_true_iff in He. destruct He as [He|He].
         { rewrite (Inv He). apply skipn_nil. }
         { apply Nat.ltb_lt in He. subst got. apply skipn_all2. rewrite firstn_length in He. lia. }
-Qed.
-
-(* the scanner as if the whole remaining text were in the buffer is a_scan (CsvReaderProofs.v), which the memory
-   reader's parse_line equals *)
-
-Lemma s_scan_refines K sep : (0 < K)%nat -> forall fuel buf todo e pos start dq cr acc,
-  esr_inv e -> (pos + length todo = length buf)%nat ->
-  (2 * length (stream_rest e) + length todo < fuel)%nat ->
-  exists ext e',
-    s_scan fuel K sep buf todo e pos start dq cr acc =
-      Ok (fst (a_scan sep (todo ++ stream_rest e) pos start dq cr acc), buf ++ ext, e',
-          snd (a_scan sep (todo ++ stream_rest e) pos start dq cr acc)) /\
-    ext ++ stream_rest e' = stream_rest e /\ esr_inv e' /\
-    (snd (a_scan sep (todo ++ stream_rest e) pos start dq cr acc) <= length (buf ++ ext))%nat.
-Proof.
-  intros HK. induction fuel as [|fuel IH]; intros buf todo e pos start dq cr acc Inv Hlen Hfuel; [lia|].
-  cbn [s_scan]. destruct todo as [|c t].
-  - pose proof (esr_read_chunk_spec K e HK Inv) as Hrc.
-    destruct (esr_read_chunk K e) as [[chunk|] e1].
-    + destruct Hrc as (Hne & Hsr & Hp & Inv1).
-      destruct (IH (buf ++ chunk) chunk e1 pos start dq cr acc Inv1) as (ext & e' & E & Hsr' & Inv' & Hpos').
-      { rewrite app_length. cbn in Hlen. lia. }
-      { rewrite <- Hsr, app_length in Hfuel. destruct chunk; [congruence|]. cbn in *. lia. }
-      exists (chunk ++ ext), e'. cbn [app]. rewrite <- Hsr. rewrite E. rewrite <- !app_assoc.
-      split; [reflexivity|]. split; [rewrite Hsr'; reflexivity|]. split; [exact Inv'|].
-      rewrite <- app_assoc in Hpos'. exact Hpos'.
-    + destruct Hrc as (Hsr & Hsr1 & Hend1 & Inv1).
-      exists [], e1. cbn [app]. rewrite Hsr, app_nil_r. cbn [a_scan fst snd].
-      cbn [length] in Hlen. replace (length buf) with pos by lia.
-      split; [reflexivity|].
-      split; [rewrite Hsr1; reflexivity|]. split; [exact Inv1|]. lia.
-  - cbn [app a_scan]. cbn [length] in Hlen, Hfuel.
-    destruct (c =? DQ).
-    { destruct (IH buf t e (S pos) start (S dq) cr acc Inv) as (ext & e' & E & R); [lia|lia|]. exists ext, e'. rewrite E. split; [reflexivity | exact R]. }
-    destruct ((c =? sep) && Nat.even dq).
-    { destruct (IH buf t e (S pos) (S pos) 0%nat None (mk_value start pos dq :: acc) Inv) as (ext & e' & E & R); [lia|lia|].
-      exists ext, e'. rewrite E. split; [reflexivity | exact R]. }
-    destruct (c =? CR).
-    { destruct (IH buf t e (S pos) start dq (Some pos) acc Inv) as (ext & e' & E & R); [lia|lia|]. exists ext, e'. rewrite E. split; [reflexivity | exact R]. }
-    destruct ((c =? LF) && Nat.even dq).
-    { exists [], e. rewrite app_nil_r. cbn [fst snd]. split; [reflexivity|]. split; [reflexivity|]. split; [exact Inv|]. lia. }
-    destruct (is_nil t && esr_is_end e) eqn:Elast.
-    { apply andb_true_iff in Elast. destruct Elast as [L1 L2]. apply is_nil_true in L1. subst t.
-      unfold esr_is_end in L2. apply andb_true_iff in L2. destruct L2 as [L2 L3]. apply is_nil_true in L2.
-      assert (Hsr : stream_rest e = []) by (unfold stream_rest; rewrite L2, (Inv L3); reflexivity).
-      exists [], e. rewrite Hsr, !app_nil_r. cbn [app a_scan fst snd].
-      cbn [length] in Hlen. replace (length buf) with (S pos) by lia.
-      split; [reflexivity|]. split; [reflexivity|]. split; [exact Inv|]. lia. }
-    destruct (IH buf t e (S pos) start dq cr acc Inv) as (ext & e' & E & R); [lia|lia|]. exists ext, e'. rewrite E. split; [reflexivity | exact R].
-Qed.
-
-(* ---------- ParseNextLine on a rendered record ---------- *)
-
-(* the text the reader has not consumed yet *)
-Definition remaining (s : sreader) : list N := skipn (s_pos s) (s_buf s) ++ stream_rest (s_esr s).
-
-Lemma esr_not_end e : esr_inv e -> stream_rest e <> [] -> esr_is_end e = false.
-Proof.
-  intros Inv H. unfold esr_is_end. destruct (e_pend e) eqn:P; [|reflexivity]. cbn.
-  destruct (e_eof e) eqn:E; [|reflexivity]. unfold stream_rest in H. rewrite P, (Inv E) in H. exfalso. apply H. reflexivity.
-Qed.
-
-Lemma s_not_end s : esr_inv (s_esr s) -> remaining s <> [] -> s_is_end s = false.
-Proof.
-  intros Inv H. unfold s_is_end. destruct (Nat.leb (length (s_buf s)) (s_pos s)) eqn:L; [|reflexivity].
-  apply Nat.leb_le in L. unfold remaining in H. rewrite skipn_all2 in H by exact L. cbn in H.
-  rewrite (esr_not_end _ Inv H). reflexivity.
-Qed.
-
-Lemma app_prefix {A} (X Y P R : list A) : X ++ Y = P ++ R -> (length P <= length X)%nat ->
-  exists Q, X = P ++ Q /\ R = Q ++ Y.
-Proof.
-  revert P. induction X as [|x X IH]; intros P H L.
-  - destruct P; [|cbn in L; lia]. exists []. cbn in *. auto.
-  - destruct P as [|p P].
-    + exists (x :: X). cbn in *. auto.
-    + cbn in *. inversion H. subst. destruct (IH P H2) as (Q & -> & ->); [lia|]. exists Q. auto.
-Qed.
-
-Definition s_line_result (s : sreader) (buf2 : list N) (e2 : esr) (metas : list meta) (pos1 : nat) : sreader :=
-  mkS buf2 e2 (s_headers s) metas pos1 (S (s_line s)) (s_rowidx s) (s_validx s) (length (s_metas s)).
-
-Lemma s_parse_next_line_record K sep : (0 < K)%nat -> sane_sep sep -> forall s a rest n qs rec fuel,
-  esr_inv (s_esr s) -> remaining s = a ++ rest -> render_record sep qs rec = Some a -> line_rest rest n ->
-  a ++ rest <> [] -> (2 * length (remaining s) + 1 < fuel)%nat ->
-  exists post e2,
-    s_parse_next_line fuel K sep s = Ok (true, s_line_result s (a ++ post) e2 (rec_metas 0 qs rec) (length a + n)) /\
-    post ++ stream_rest e2 = rest /\ esr_inv e2 /\ (n <= length post)%nat /\
-    ((length post <= n)%nat -> esr_is_end e2 = true).
-Proof.
-  intros HK S s a rest n qs rec fuel Inv Hrem Hrec LR Hne Hfuel.
-  unfold s_parse_next_line. rewrite (s_not_end s Inv) by (rewrite Hrem; exact Hne).
-  set (buf0 := skipn (s_pos s) (s_buf s)) in *.
-  destruct (s_scan_refines K sep HK fuel buf0 buf0 (s_esr s) 0 0 0 None [] Inv) as (ext & e1 & E & Hsr & Inv1 & Hpos).
-  { reflexivity. }
-  { unfold remaining in Hfuel. fold buf0 in Hfuel. rewrite app_length in Hfuel. lia. }
-  unfold remaining in Hrem. fold buf0 in Hrem. rewrite Hrem in E, Hpos.
-  rewrite (as_record sep S rec qs a rest n 0 [] Hrec LR) in E, Hpos. cbn [fst snd Nat.add] in E, Hpos.
-  rewrite E. rewrite app_nil_r, rev_involutive.
-  (* the buffer after the scan holds the record and its line break *)
-  assert (Hall : (buf0 ++ ext) ++ stream_rest e1 = a ++ rest).
-  { rewrite <- app_assoc, Hsr. exact Hrem. }
-  assert (Hla : (length a <= length (buf0 ++ ext))%nat) by lia.
-  destruct (app_prefix _ _ _ _ Hall Hla) as (post1 & Ebuf & Erest).
-  rewrite Ebuf in *. rewrite app_length in Hpos.
-  destruct (Nat.eqb (length a + n) (length (a ++ post1))) eqn:Eq.
-  - apply Nat.eqb_eq in Eq. rewrite app_length in Eq.
-    pose proof (esr_read_chunk_spec K e1 HK Inv1) as Hrc.
-    destruct (esr_read_chunk K e1) as [[chunk|] e2].
-    + destruct Hrc as (Hcne & Hsr2 & _ & Inv2).
-      exists (post1 ++ chunk), e2. rewrite <- app_assoc.
-      split; [reflexivity|]. split; [rewrite <- app_assoc, Hsr2; symmetry; exact Erest|]. split; [exact Inv2|].
-      rewrite app_length. split; [lia|]. destruct chunk; [congruence|]. cbn. lia.
-    + destruct Hrc as (Hsr1 & Hsr2 & Hend2 & Inv2).
-      exists post1, e2. split; [reflexivity|]. split; [rewrite Hsr2; rewrite Hsr1 in Erest; symmetry; exact Erest|].
-      split; [exact Inv2|]. split; [lia|]. intros _. exact Hend2.
-  - apply Nat.eqb_neq in Eq. rewrite app_length in Eq.
-    exists post1, e1. split; [reflexivity|]. split; [symmetry; exact Erest|]. split; [exact Inv1|]. split; [lia|]. lia.
 Qed.
 
 (* ---------- unescaping in place ---------- *)
@@ -217,17 +99,6 @@ Proof.
 Qed.
 
 (* ---------- a parsed row in the buffer: cells ---------- *)
-
-(* the reader state apart from buffer, metas and column cursor *)
-Definition s_same (s s' : sreader) : Prop :=
-  s_esr s' = s_esr s /\ s_headers s' = s_headers s /\ s_pos s' = s_pos s /\
-  s_line s' = s_line s /\ s_rowidx s' = s_rowidx s /\ s_prev s' = s_prev s.
-
-Lemma s_same_refl s : s_same s s.
-Proof. unfold s_same. repeat split; reflexivity. Qed.
-
-Lemma s_same_trans s1 s2 s3 : s_same s1 s2 -> s_same s2 s3 -> s_same s1 s3.
-Proof. unfold s_same. intros (A1&A2&A3&A4&A5&A6) (B1&B2&B3&B4&B5&B6). repeat split; congruence. Qed.
 
 (* the window of a field and its meta: either still as rendered, or (escaped field already read once) the decoded
    value followed by what unescaping left behind, described by a meta without quotes *)
@@ -319,8 +190,150 @@ Proof.
       * inversion E. subst. eexists. split; [exact Em|]. split; [reflexivity|]. constructor; assumption.
 Qed.
 
+(* ---------- the CSV reader over any chunk source that delivers a text ---------- *)
+Section SRC.
+Variable Src : Type.
+Variable rd : Src -> option (list N) * Src.
+Variable iend : Src -> bool.
+(* what the source is still going to deliver, and when a source state is sound *)
+Variable stream_rest : Src -> list N.
+Variable esr_inv : Src -> Prop.
+Hypothesis rd_spec : forall e, esr_inv e ->
+  match rd e with
+  | (Some chunk, e') => chunk <> [] /\ chunk ++ stream_rest e' = stream_rest e /\ True /\ esr_inv e'
+  | (None, e') => stream_rest e = [] /\ stream_rest e' = [] /\ iend e' = true /\ esr_inv e'
+  end.
+Hypothesis iend_spec : forall e, esr_inv e -> iend e = true -> stream_rest e = [].
+
+(* the scanner as if the whole remaining text were in the buffer is a_scan (CsvReaderProofs.v), which the memory
+   reader's parse_line equals *)
+
+Lemma s_scan_refines sep : forall fuel buf todo e pos start dq cr acc,
+  esr_inv e -> (pos + length todo = length buf)%nat ->
+  (2 * length (stream_rest e) + length todo < fuel)%nat ->
+  exists ext e',
+    s_scan rd iend fuel sep buf todo e pos start dq cr acc =
+      Ok (fst (a_scan sep (todo ++ stream_rest e) pos start dq cr acc), buf ++ ext, e',
+          snd (a_scan sep (todo ++ stream_rest e) pos start dq cr acc)) /\
+    ext ++ stream_rest e' = stream_rest e /\ esr_inv e' /\
+    (snd (a_scan sep (todo ++ stream_rest e) pos start dq cr acc) <= length (buf ++ ext))%nat.
+Proof.
+  induction fuel as [|fuel IH]; intros buf todo e pos start dq cr acc Inv Hlen Hfuel; [lia|].
+  cbn [s_scan]. destruct todo as [|c t].
+  - pose proof (rd_spec e Inv) as Hrc.
+    destruct (rd e) as [[chunk|] e1].
+    + destruct Hrc as (Hne & Hsr & Hp & Inv1).
+      destruct (IH (buf ++ chunk) chunk e1 pos start dq cr acc Inv1) as (ext & e' & E & Hsr' & Inv' & Hpos').
+      { rewrite app_length. cbn in Hlen. lia. }
+      { rewrite <- Hsr, app_length in Hfuel. destruct chunk; [congruence|]. cbn in *. lia. }
+      exists (chunk ++ ext), e'. cbn [app]. rewrite <- Hsr. rewrite E. rewrite <- !app_assoc.
+      split; [reflexivity|]. split; [rewrite Hsr'; reflexivity|]. split; [exact Inv'|].
+      rewrite <- app_assoc in Hpos'. exact Hpos'.
+    + destruct Hrc as (Hsr & Hsr1 & Hend1 & Inv1).
+      exists [], e1. cbn [app]. rewrite Hsr, app_nil_r. cbn [a_scan fst snd].
+      cbn [length] in Hlen. replace (length buf) with pos by lia.
+      split; [reflexivity|].
+      split; [rewrite Hsr1; reflexivity|]. split; [exact Inv1|]. lia.
+  - cbn [app a_scan]. cbn [length] in Hlen, Hfuel.
+    destruct (c =? DQ).
+    { destruct (IH buf t e (S pos) start (S dq) cr acc Inv) as (ext & e' & E & R); [lia|lia|]. exists ext, e'. rewrite E. split; [reflexivity | exact R]. }
+    destruct ((c =? sep) && Nat.even dq).
+    { destruct (IH buf t e (S pos) (S pos) 0%nat None (mk_value start pos dq :: acc) Inv) as (ext & e' & E & R); [lia|lia|].
+      exists ext, e'. rewrite E. split; [reflexivity | exact R]. }
+    destruct (c =? CR).
+    { destruct (IH buf t e (S pos) start dq (Some pos) acc Inv) as (ext & e' & E & R); [lia|lia|]. exists ext, e'. rewrite E. split; [reflexivity | exact R]. }
+    destruct ((c =? LF) && Nat.even dq).
+    { exists [], e. rewrite app_nil_r. cbn [fst snd]. split; [reflexivity|]. split; [reflexivity|]. split; [exact Inv|]. lia. }
+    destruct (is_nil t && iend e) eqn:Elast.
+    { apply andb_true_iff in Elast. destruct Elast as [L1 L2]. apply is_nil_true in L1. subst t.
+      assert (Hsr : stream_rest e = []) by (apply iend_spec; assumption).
+      exists [], e. rewrite Hsr, !app_nil_r. cbn [app a_scan fst snd].
+      cbn [length] in Hlen. replace (length buf) with (S pos) by lia.
+      split; [reflexivity|]. split; [reflexivity|]. split; [exact Inv|]. lia. }
+    destruct (IH buf t e (S pos) start dq cr acc Inv) as (ext & e' & E & R); [lia|lia|]. exists ext, e'. rewrite E. split; [reflexivity | exact R].
+Qed.
+
+(* ---------- ParseNextLine on a rendered record ---------- *)
+
+(* the text the reader has not consumed yet *)
+Definition remaining (s : sreader Src) : list N := skipn (s_pos s) (s_buf s) ++ stream_rest (s_esr s).
+
+Lemma esr_not_end e : esr_inv e -> stream_rest e <> [] -> iend e = false.
+Proof.
+  intros Inv H. destruct (iend e) eqn:Ee; [|reflexivity]. exfalso. apply H. apply iend_spec; assumption.
+Qed.
+
+Lemma s_not_end s : esr_inv (s_esr s) -> remaining s <> [] -> s_is_end iend s = false.
+Proof.
+  intros Inv H. unfold s_is_end. destruct (Nat.leb (length (s_buf s)) (s_pos s)) eqn:L; [|reflexivity].
+  apply Nat.leb_le in L. unfold remaining in H. rewrite skipn_all2 in H by exact L. cbn in H.
+  rewrite (esr_not_end _ Inv H). reflexivity.
+Qed.
+
+Lemma app_prefix {A} (X Y P R : list A) : X ++ Y = P ++ R -> (length P <= length X)%nat ->
+  exists Q, X = P ++ Q /\ R = Q ++ Y.
+Proof.
+  revert P. induction X as [|x X IH]; intros P H L.
+  - destruct P; [|cbn in L; lia]. exists []. cbn in *. auto.
+  - destruct P as [|p P].
+    + exists (x :: X). cbn in *. auto.
+    + cbn in *. inversion H. subst. destruct (IH P H2) as (Q & -> & ->); [lia|]. exists Q. auto.
+Qed.
+
+Definition s_line_result (s : sreader Src) (buf2 : list N) (e2 : Src) (metas : list meta) (pos1 : nat) : sreader Src :=
+  mkS buf2 e2 (s_headers s) metas pos1 (S (s_line s)) (s_rowidx s) (s_validx s) (length (s_metas s)).
+
+Lemma s_parse_next_line_record sep : sane_sep sep -> forall s a rest n qs rec fuel,
+  esr_inv (s_esr s) -> remaining s = a ++ rest -> render_record sep qs rec = Some a -> line_rest rest n ->
+  a ++ rest <> [] -> (2 * length (remaining s) + 1 < fuel)%nat ->
+  exists post e2,
+    s_parse_next_line rd iend fuel sep s = Ok (true, s_line_result s (a ++ post) e2 (rec_metas 0 qs rec) (length a + n)) /\
+    post ++ stream_rest e2 = rest /\ esr_inv e2 /\ (n <= length post)%nat /\
+    ((length post <= n)%nat -> iend e2 = true).
+Proof.
+  intros S s a rest n qs rec fuel Inv Hrem Hrec LR Hne Hfuel.
+  unfold s_parse_next_line. rewrite (s_not_end s Inv) by (rewrite Hrem; exact Hne).
+  set (buf0 := skipn (s_pos s) (s_buf s)) in *.
+  destruct (s_scan_refines sep fuel buf0 buf0 (s_esr s) 0 0 0 None [] Inv) as (ext & e1 & E & Hsr & Inv1 & Hpos).
+  { reflexivity. }
+  { unfold remaining in Hfuel. fold buf0 in Hfuel. rewrite app_length in Hfuel. lia. }
+  unfold remaining in Hrem. fold buf0 in Hrem. rewrite Hrem in E, Hpos.
+  rewrite (as_record sep S rec qs a rest n 0 [] Hrec LR) in E, Hpos. cbn [fst snd Nat.add] in E, Hpos.
+  rewrite E. rewrite app_nil_r, rev_involutive.
+  (* the buffer after the scan holds the record and its line break *)
+  assert (Hall : (buf0 ++ ext) ++ stream_rest e1 = a ++ rest).
+  { rewrite <- app_assoc, Hsr. exact Hrem. }
+  assert (Hla : (length a <= length (buf0 ++ ext))%nat) by lia.
+  destruct (app_prefix _ _ _ _ Hall Hla) as (post1 & Ebuf & Erest).
+  rewrite Ebuf in *. rewrite app_length in Hpos.
+  destruct (Nat.eqb (length a + n) (length (a ++ post1))) eqn:Eq.
+  - apply Nat.eqb_eq in Eq. rewrite app_length in Eq.
+    pose proof (rd_spec e1 Inv1) as Hrc.
+    destruct (rd e1) as [[chunk|] e2].
+    + destruct Hrc as (Hcne & Hsr2 & _ & Inv2).
+      exists (post1 ++ chunk), e2. rewrite <- app_assoc.
+      split; [reflexivity|]. split; [rewrite <- app_assoc, Hsr2; symmetry; exact Erest|]. split; [exact Inv2|].
+      rewrite app_length. split; [lia|]. destruct chunk; [congruence|]. cbn. lia.
+    + destruct Hrc as (Hsr1 & Hsr2 & Hend2 & Inv2).
+      exists post1, e2. split; [reflexivity|]. split; [rewrite Hsr2; rewrite Hsr1 in Erest; symmetry; exact Erest|].
+      split; [exact Inv2|]. split; [lia|]. intros _. exact Hend2.
+  - apply Nat.eqb_neq in Eq. rewrite app_length in Eq.
+    exists post1, e1. split; [reflexivity|]. split; [symmetry; exact Erest|]. split; [exact Inv1|]. split; [lia|]. lia.
+Qed.
+
+(* the reader state apart from buffer, metas and column cursor *)
+Definition s_same (s s' : sreader Src) : Prop :=
+  s_esr s' = s_esr s /\ s_headers s' = s_headers s /\ s_pos s' = s_pos s /\
+  s_line s' = s_line s /\ s_rowidx s' = s_rowidx s /\ s_prev s' = s_prev s.
+
+Lemma s_same_refl s : s_same s s.
+Proof. unfold s_same. repeat split; reflexivity. Qed.
+
+Lemma s_same_trans s1 s2 s3 : s_same s1 s2 -> s_same s2 s3 -> s_same s1 s3.
+Proof. unfold s_same. intros (A1&A2&A3&A4&A5&A6) (B1&B2&B3&B4&B5&B6). repeat split; congruence. Qed.
+
 (* ReadValue() and ReadValue(key) through read_meta *)
-Lemma s_read_next_meta s m : nth_error (s_metas s) (s_validx s) = Some m ->
+Lemma s_read_next_meta (s : sreader Src) m : nth_error (s_metas s) (s_validx s) = Some m ->
   s_read_next s =
     match read_meta (s_buf s) (s_metas s) (s_validx s) m with
     | Ok (v, buf', ms') => Ok (v, mkS buf' (s_esr s) (s_headers s) ms' (s_pos s) (s_line s) (s_rowidx s) (S (s_validx s)) (s_prev s))
@@ -331,7 +344,7 @@ Proof.
   destruct (s_unescape (s_buf s) (m_off m) (m_off m + m_size m)) as [[v b']| | | |]; reflexivity.
 Qed.
 
-Lemma s_read_key_meta s k idx m : select_column (s_headers s) (s_validx s) k = (idx, true) ->
+Lemma s_read_key_meta (s : sreader Src) k idx m : select_column (s_headers s) (s_validx s) k = (idx, true) ->
   nth_error (s_metas s) idx = Some m ->
   s_read_key true s k =
     match read_meta (s_buf s) (s_metas s) idx m with
@@ -414,8 +427,8 @@ Qed.
 
 (* ---------- the load loop ---------- *)
 
-Definition loop_inv (hdr : record) (s : sreader) : Prop :=
-  esr_inv (s_esr s) /\ ((length (s_buf s) <= s_pos s)%nat -> esr_is_end (s_esr s) = true) /\ s_headers s = hdr.
+Definition loop_inv (hdr : record) (s : sreader Src) : Prop :=
+  esr_inv (s_esr s) /\ ((length (s_buf s) <= s_pos s)%nat -> iend (s_esr s) = true) /\ s_headers s = hdr.
 
 Lemma skipn_nil_length {A} (l : list A) n : skipn n l = [] -> (length l <= n)%nat.
 Proof. intros H. pose proof (skipn_length n l) as L. rewrite H in L. cbn in L. lia. Qed.
@@ -426,15 +439,15 @@ Proof. rewrite skipn_app, skipn_all2 by lia. cbn. f_equal. lia. Qed.
 Lemma skipn_app_le {A} (X Y : list A) n : (n <= length X)%nat -> skipn n X ++ Y = skipn n (X ++ Y).
 Proof. intros H. rewrite skipn_app. replace (n - length X)%nat with 0%nat by lia. reflexivity. Qed.
 
-Lemma s_load_rows_spec K sep keys hdr : (0 < K)%nat -> sane_sep sep ->
+Lemma s_load_rows_spec sep keys hdr : sane_sep sep ->
   forall t chs final body fuel fl s acc,
   ((t = [] /\ body = []) \/ render sep chs final t = Some body) ->
   remaining s = body -> loop_inv hdr s ->
   (length body < fuel)%nat -> (2 * length body + 1 < fl)%nat ->
-  s_load_rows fuel fl K sep keys s acc =
+  s_load_rows rd iend fuel fl sep keys s acc =
     if widths_ok hdr t then Ok (acc ++ read_rows hdr keys t) else Err ParsingError.
 Proof.
-  intros HK S. induction t as [|rec t IH]; intros chs final body fuel fl s acc Hb Hrem (Inv & Hend & Hhdr) Hfuel Hfl.
+  intros S. induction t as [|rec t IH]; intros chs final body fuel fl s acc Hb Hrem (Inv & Hend & Hhdr) Hfuel Hfl.
   - destruct Hb as [[_ ->]|Hb]; [|rewrite render_nil in Hb; discriminate].
     destruct fuel as [|fuel]; [lia|]. cbn [s_load_rows].
     unfold remaining in Hrem. apply app_eq_nil in Hrem. destruct Hrem as [R1 R2].
@@ -446,7 +459,7 @@ Proof.
     destruct fuel as [|fuel]; [lia|]. cbn [s_load_rows].
     rewrite (s_not_end s Inv) by (rewrite Hrem; exact Hbne).
     unfold s_parse_next_row.
-    destruct (s_parse_next_line_record K sep HK S s a rest n (ch_quotes ch) rec fl Inv Hrem Ha LR Hbne)
+    destruct (s_parse_next_line_record sep S s a rest n (ch_quotes ch) rec fl Inv Hrem Ha LR Hbne)
       as (post1 & e2 & E & Hpost & Inv2 & Hnle & Hend2).
     { rewrite Hrem. exact Hfl. }
     rewrite E. unfold s_line_result.
@@ -478,6 +491,57 @@ Proof.
     unfold read_rows. cbn [map]. rewrite <- app_assoc. reflexivity.
 Qed.
 
+
+(* LoadObject over a sound source that delivers a rendering: the rows, or ParsingError when a record's width differs *)
+Theorem csv_load_src_render sep chs final hdr rows payload keys e0 n : allowed sep ->
+  esr_inv e0 -> stream_rest e0 = payload -> (length payload <= n)%nat ->
+  render sep chs final (hdr :: rows) = Some payload ->
+  csv_load_src rd iend n sep keys e0 = load_expect hdr keys rows.
+Proof.
+  intros A Inv0 Hsr Hpl R. pose proof (allowed_sane sep A) as S.
+  unfold csv_load_src. rewrite (allowed_validate sep A). cbn [negb].
+  pose proof (render_nonempty _ _ _ _ _ R) as Hne.
+  destruct (render_shape _ _ _ _ _ _ R) as (ch & chs' & a & rest & n0 & tail & -> & Ha & Epay & LR & Hprog & Erest & Hn & Htail).
+  unfold s_new.
+  set (s0 := mkS [] e0 [] [] 0 0 0 0 0).
+  assert (Hrem0 : remaining s0 = a ++ rest).
+  { unfold remaining, s0. cbn [s_pos s_buf s_esr skipn app]. rewrite Hsr. exact Epay. }
+  destruct (s_parse_next_line_record sep S s0 a rest n0 (ch_quotes ch) hdr (2 * n + 4)%nat Inv0 Hrem0 Ha LR)
+    as (post1 & e2 & E1 & Hpost & Inv2 & Hnle & Hend2).
+  { rewrite <- Epay. exact Hne. }
+  { rewrite Hrem0, <- Epay. lia. }
+  rewrite E1. unfold s_line_result, s0. cbn [s_headers s_metas s_line s_rowidx s_validx length].
+  match goal with |- context [s_read_headers _ ?ss []] => set (s1 := ss) end.
+  destruct (s_read_headers_spec sep (ch_quotes ch) hdr post1 (length (rec_metas 0 (ch_quotes ch) hdr)) s1 [] a)
+    as (s2 & txt2 & E2 & RC2 & B2 & (A1&A2&A3&A4&A5&A6)).
+  { subst s1. cbn [s_metas]. apply row_cells_initial. exact Ha. }
+  { subst s1. reflexivity. }
+  { subst s1. cbn [s_metas s_validx]. rewrite (rec_metas_length sep hdr _ a 0 Ha). lia. }
+  rewrite E2. cbv beta iota. subst s1. cbn [s_esr s_headers s_metas s_pos s_line s_rowidx s_prev s_validx skipn app] in *.
+  destruct (row_cells_length sep _ _ _ _ _ RC2 a Ha) as [El2 _].
+  unfold load_expect.
+  apply (s_load_rows_spec sep keys hdr S rows chs' final tail).
+  - exact Htail.
+  - unfold remaining. cbn [s_pos s_buf s_esr]. rewrite A1, A3, B2, <- El2, skipn_past.
+    rewrite skipn_app_le by exact Hnle. rewrite Hpost. rewrite Erest at 1. rewrite <- Hn at 1. apply skipn_app_exact.
+  - unfold loop_inv. cbn [s_pos s_buf s_esr s_headers]. split; [rewrite A1; exact Inv2|]. split; [|reflexivity].
+    rewrite A1, A3, B2, app_length, El2. intros H. apply Hend2. lia.
+  - assert (length (a ++ rest) <= n)%nat by (rewrite <- Epay; exact Hpl).
+    rewrite app_length in H. rewrite Erest, app_length, Hn in H. lia.
+  - assert (length (a ++ rest) <= n)%nat by (rewrite <- Epay; exact Hpl).
+    rewrite app_length in H. rewrite Erest, app_length, Hn in H. lia.
+Qed.
+End SRC.
+
+Arguments remaining {Src} stream_rest s.
+Arguments s_same {Src} s s'.
+Arguments s_same_refl {Src} s.
+Arguments s_same_trans {Src} s1 s2 s3.
+Arguments s_read_next_meta {Src} s m.
+Arguments s_read_key_meta {Src} s k idx m.
+Arguments s_scan_refines {Src} rd iend stream_rest esr_inv rd_spec iend_spec sep.
+Arguments csv_load_src_render {Src} rd iend stream_rest esr_inv rd_spec iend_spec.
+
 (* ---------- constructor and LoadObject from a stream ---------- *)
 
 (* what the stream reader hands to the CSV scanner: the text minus a UTF-8 byte order mark found in the first chunk *)
@@ -488,61 +552,39 @@ Lemma starts_with_bom_length l : starts_with_bom l = true -> (3 <= length l)%nat
 Proof. destruct l as [|a [|b [|c l]]]; cbn; try discriminate. lia. Qed.
 
 Lemma esr_new_spec K text : (0 < K)%nat ->
-  stream_rest (esr_new K text) = stream_payload K text /\ esr_inv (esr_new K text).
+  esr_rest (esr_new K text) = stream_payload K text /\ esr_ok (esr_new K text).
 Proof.
   intros HK. unfold esr_new, esr_fill, stream_payload. cbn [e_pend e_rest e_eof length app]. rewrite Nat.sub_0_r.
   assert (Inv0 : Nat.ltb (length (firstn K text)) K = true -> skipn K text = []).
   { intros H. apply Nat.ltb_lt in H. rewrite firstn_length in H. apply skipn_all2. lia. }
   destruct (negb (is_nil (firstn K text)) && starts_with_bom (firstn K text)) eqn:Eb.
   - apply andb_true_iff in Eb. destruct Eb as [_ Eb]. rewrite Eb.
-    unfold stream_rest, esr_inv. cbn [e_pend e_rest e_eof]. split; [|exact Inv0].
+    unfold esr_rest, esr_ok. cbn [e_pend e_rest e_eof]. split; [|exact Inv0].
     apply starts_with_bom_length in Eb. rewrite skipn_app_le by exact Eb. rewrite firstn_skipn. reflexivity.
-  - unfold stream_rest, esr_inv. cbn [e_pend e_rest e_eof]. split; [|exact Inv0].
+  - unfold esr_rest, esr_ok. cbn [e_pend e_rest e_eof]. split; [|exact Inv0].
     rewrite firstn_skipn.
     destruct (starts_with_bom (firstn K text)) eqn:Es; [|reflexivity].
     rewrite andb_true_r in Eb. apply negb_false_iff in Eb. apply is_nil_true in Eb. rewrite Eb in Es. discriminate.
 Qed.
+
+Lemma esr_iend_spec e : esr_ok e -> esr_is_end e = true -> esr_rest e = [].
+Proof.
+  intros Inv H. unfold esr_is_end in H. apply andb_true_iff in H. destruct H as [H1 H2]. apply is_nil_true in H1.
+  unfold esr_rest. rewrite H1, (Inv H2). reflexivity.
+Qed.
+
+Lemma stream_payload_length K text : (length (stream_payload K text) <= length text)%nat.
+Proof. unfold stream_payload. destruct (starts_with_bom (firstn K text)); [rewrite skipn_length; lia | lia]. Qed.
 
 (* for every chunk size: whatever rendering the stream carries, the stream reader answers exactly as specified *)
 Theorem csv_load_stream_render K sep chs final hdr rows text keys : (0 < K)%nat -> allowed sep ->
   render sep chs final (hdr :: rows) = Some (stream_payload K text) ->
   csv_load_stream K sep keys text = load_expect hdr keys rows.
 Proof.
-  intros HK A R. pose proof (allowed_sane sep A) as S.
-  unfold csv_load_stream. rewrite (allowed_validate sep A). cbn [negb].
-  pose proof (render_nonempty _ _ _ _ _ R) as Hne.
-  destruct (render_shape _ _ _ _ _ _ R) as (ch & chs' & a & rest & n & tail & -> & Ha & Epay & LR & Hprog & Erest & Hn & Htail).
-  destruct (esr_new_spec K text HK) as [Hsr Inv0].
-  assert (Hpl : (length (stream_payload K text) <= length text)%nat).
-  { unfold stream_payload. destruct (starts_with_bom (firstn K text)); [rewrite skipn_length; lia | lia]. }
-  unfold s_new.
-  set (s0 := mkS [] (esr_new K text) [] [] 0 0 0 0 0).
-  assert (Hrem0 : remaining s0 = a ++ rest).
-  { unfold remaining, s0. cbn [s_pos s_buf s_esr skipn app]. rewrite Hsr. exact Epay. }
-  destruct (s_parse_next_line_record K sep HK S s0 a rest n (ch_quotes ch) hdr (stream_fuel text) Inv0 Hrem0 Ha LR)
-    as (post1 & e2 & E & Hpost & Inv2 & Hnle & Hend2).
-  { rewrite <- Epay. exact Hne. }
-  { rewrite Hrem0, <- Epay. unfold stream_fuel. lia. }
-  rewrite E. unfold s_line_result, s0. cbn [s_headers s_metas s_line s_rowidx s_validx length].
-  match goal with |- context [s_read_headers _ ?ss []] => set (s1 := ss) end.
-  destruct (s_read_headers_spec sep (ch_quotes ch) hdr post1 (length (rec_metas 0 (ch_quotes ch) hdr)) s1 [] a)
-    as (s2 & txt2 & E2 & RC2 & B2 & (A1&A2&A3&A4&A5&A6)).
-  { subst s1. cbn [s_metas]. apply row_cells_initial. exact Ha. }
-  { subst s1. reflexivity. }
-  { subst s1. cbn [s_metas s_validx]. rewrite (rec_metas_length sep hdr _ a 0 Ha). lia. }
-  rewrite E2. cbv beta iota. subst s1. cbn [s_esr s_headers s_metas s_pos s_line s_rowidx s_prev s_validx skipn app] in *.
-  destruct (row_cells_length sep _ _ _ _ _ RC2 a Ha) as [El2 _].
-  unfold load_expect.
-  apply (s_load_rows_spec K sep keys hdr HK S rows chs' final tail).
-  - exact Htail.
-  - unfold remaining. cbn [s_pos s_buf s_esr]. rewrite A1, A3, B2, <- El2, skipn_past.
-    rewrite skipn_app_le by exact Hnle. rewrite Hpost. rewrite Erest at 1. rewrite <- Hn at 1. apply skipn_app_exact.
-  - unfold loop_inv. cbn [s_pos s_buf s_esr s_headers]. split; [rewrite A1; exact Inv2|]. split; [|reflexivity].
-    rewrite A1, A3, B2, app_length, El2. intros H. apply Hend2. lia.
-  - assert (length (a ++ rest) <= length text)%nat by (rewrite <- Epay; exact Hpl).
-    rewrite app_length in H. rewrite Erest, app_length, Hn in H. lia.
-  - assert (length (a ++ rest) <= length text)%nat by (rewrite <- Epay; exact Hpl).
-    rewrite app_length in H. rewrite Erest, app_length, Hn in H. unfold stream_fuel. lia.
+  intros HK A R. destruct (esr_new_spec K text HK) as [Hsr Inv0]. unfold csv_load_stream.
+  apply (csv_load_src_render (esr_read_chunk K) esr_is_end esr_rest esr_ok
+           (fun e Inv => esr_read_chunk_spec K e HK Inv) esr_iend_spec sep chs final hdr rows (stream_payload K text));
+    try assumption. apply stream_payload_length.
 Qed.
 
 Theorem csv_load_stream_rfc K sep chs final hdr rows text keys : (0 < K)%nat -> allowed sep -> NoDup hdr -> uniform hdr rows ->
